@@ -574,6 +574,9 @@ def run(ck: Checker) -> None:
     ck.guard("R-VAR-ORDER", lambda: r_var_order(ck))
     ck.guard("R-GRAM-EXH", lambda: r_unquote(ck))
     ck.guard("R-XP-ELEMENTS", lambda: r_reusable(ck))
+    from . import state_rules as S
+    ck.guard("R-NO-MEMO", lambda: S.r_stateless(ck, "R-NO-MEMO", XP, "XPathTransformer", None, "one transformer instance serves every parse, also after a failed one"))
+    ck.guard("R-NO-MEMO", lambda: S.r_stateless(ck, "R-NO-MEMO", XP, "ASTXpath", ("match", "findall"), "compiling a text again yields an object with the same behaviour"))
     ck.guard("R-POSTINIT-IDEMP", lambda: r_postinit_idemp(ck))
     from .c07 import r_xp_elements
     ck.guard("R-XP-ELEMENTS", lambda: r_xp_elements(ck))
